@@ -271,6 +271,23 @@ pub fn engine_of(prop: &str) -> Option<Box<dyn Engine>> {
             level: "exploration",
             parts: vec![(1, Box::new(HistEngine { huge_hints: true, ..hist("C07", None, 150_000, 2_000_000) })), (1, Box::new(crate::diffhint::HintEngine { quick_runs: 150_000, thorough_runs: 2_000_000 }))],
         }),
+        "C15" => Box::new(Multi {
+            prop: "C15",
+            level: "exploration",
+            parts: vec![(1, Box::new(hist("C15", None, 100_000, 1_500_000))), (3, Box::new(crate::serdefault::SerdeEngine { quick_runs: 300_000, thorough_runs: 4_500_000 }))],
+        }),
+        "C14" => Box::new(Multi {
+            prop: "C14",
+            level: "exploration",
+            parts: vec![(1, Box::new(hist("C14", None, 100_000, 1_500_000))), (2, Box::new(crate::twin::CloneEngine { quick_runs: 200_000, thorough_runs: 3_000_000 }))],
+        }),
+        "C17" => Box::new(Multi {
+            prop: "C17",
+            level: "fault_enumeration",
+            parts: vec![(1, Box::new(HistEngine { alloc_faults: true, ..hist("C17", None, 60_000, 1_500_000) })), (1, Box::new(crate::twin::CapEngine { quick_runs: 60_000, thorough_runs: 1_500_000 }))],
+        }),
+        "C18" => Box::new(crate::twin::HashEngine { quick_runs: 120_000, thorough_runs: 2_000_000 }),
+        "C05" => Box::new(crate::complexity::CxEngine { quick_runs: 1_200, thorough_runs: 6_000 }),
         "C10" => Box::new(crate::crash::CrashEngine { quick_runs: 150_000, thorough_runs: 3_000_000 }),
         _ => return None,
     })
